@@ -57,6 +57,7 @@ type plJob struct {
 	Scheds     [][]string `json:"scheds"`      // TLC-generated schedules (spec/PipelineSched.tla) to replay one after the other; Data = the model's datagrams
 	Poison     []int      `json:"poison"`      // what a recycled buffer holds behind the datagram just read: repeated well-formed sets / records
 	Free       bool       `json:"free"`        // no gates: the workers run in parallel as in the collector (used under the race detector)
+	Verbose    bool       `json:"verbose"`     // the collector runs with -verbose
 	Backlog    bool       `json:"backlog"`     // the receive loop is ahead: the datagram queue is full and the loop is blocked handing the next one over
 	MirrorLate bool       `json:"mirror_late"` // mirroring is enabled only after the templates have been processed
 	Mirror     string     `json:"mirror"`      // "": mirroring off; "on": enabled, the copies are taken and given back like the mirror workers do; "full": enabled and the mirror queue is full
@@ -336,7 +337,7 @@ func plRun(job plJob) (res plResult) {
 	res.ID = job.ID
 	runtime.GOMAXPROCS(1)
 	logger = log.New(ioutil.Discard, "", 0)
-	opts = &Options{Logger: logger, SFlowTypeFilter: job.Filter}
+	opts = &Options{Logger: logger, SFlowTypeFilter: job.Filter, Verbose: job.Verbose} // (-verbose: what is logged goes nowhere, but it is computed)
 	mCache = ipfix.GetCache("")
 	mCacheNF9 = netflow9.GetCache("")
 	ad := plAdapter(job.Proto, job.UDPSize)
@@ -826,7 +827,7 @@ func plRunFree(job plJob) (res plResult) {
 	res.ID = job.ID
 	runtime.GOMAXPROCS(8)
 	logger = log.New(ioutil.Discard, "", 0)
-	opts = &Options{Logger: logger, SFlowTypeFilter: job.Filter}
+	opts = &Options{Logger: logger, SFlowTypeFilter: job.Filter, Verbose: job.Verbose} // (-verbose: what is logged goes nowhere, but it is computed)
 	mCache = ipfix.GetCache("")
 	mCacheNF9 = netflow9.GetCache("")
 	ad := plAdapter(job.Proto, job.UDPSize)
